@@ -339,6 +339,17 @@ class RemoveKernel(Transformation):
         }
         routine.body = Transformer(call_map).visit(routine.body)
 
+        # Remove the imports of the removed kernels together with the calls
+        import_map = {}
+        for imprt in FindNodes(ir.Import).visit(routine.spec) if call_map else ():
+            if imprt.c_import or not imprt.symbols:
+                continue
+            symbols = tuple(s for s in imprt.symbols if str(s.name).lower() not in self.remove_kernels)
+            if len(symbols) != len(imprt.symbols):
+                import_map[imprt] = imprt.clone(symbols=symbols) if symbols else None
+        if import_map:
+            routine.spec = Transformer(import_map).visit(routine.spec)
+
     def plan_subroutine(self, routine, **kwargs):
         item = kwargs.get('item')
         sub_sgraph = kwargs.get('sub_sgraph', None)
